@@ -372,6 +372,7 @@ void reb_simulation_remove_all_particles(struct reb_simulation* const r){
 	r->N_allocated 	= 0;
 	r->N_active 	= -1;
 	r->N_var 	= 0;
+	r->N_var_config = 0;	// The variational configurations refer to indices of the removed particles.
 	free(r->particles);
 	r->particles 	= NULL;
 }
